@@ -15,7 +15,7 @@ use crate::common::session::Session;
 use crate::common::*;
 use nundb::bo::Response;
 use serde_json::json;
-use std::collections::BTreeSet;
+use std::collections::{BTreeMap, BTreeSet};
 use std::sync::Mutex;
 
 fn get_safe(s: &mut Session, dbs: &std::sync::Arc<nundb::bo::Databases>, k: &str) -> (String, i32) {
@@ -102,6 +102,30 @@ fn sequential(v: &Verdicts, rng: &mut Rng, n: usize) -> (u64, BTreeSet<String>) 
 }
 
 // ---------------------------------------------------------------- (b) two concurrent writers
+/// Depth-first search for an order of `ops` = (client, line, reply, call position, return position) that keeps each
+/// client's own order and everything that had returned before another was called, and that `accept` accepts.
+fn search_order(ops: &[(usize, String, String, usize, usize)], order: &mut Vec<usize>, used: &mut Vec<bool>, accept: &mut dyn FnMut(&[usize]) -> bool) -> bool {
+    let n = ops.len();
+    if order.len() == n {
+        return accept(order);
+    }
+    for c in 0..n {
+        if used[c] || !(0..n).all(|j| used[j] || j == c || !(ops[j].4 < ops[c].3)) {
+            continue;
+        }
+        used[c] = true;
+        order.push(c);
+        if search_order(ops, order, used, accept) {
+            return true;
+        }
+        order.pop();
+        used[c] = false;
+    }
+    false
+}
+
+static CHECKED_DROPS: std::sync::atomic::AtomicU64 = std::sync::atomic::AtomicU64::new(0);
+
 fn concurrent(v: &Verdicts, runs: usize, seed0: u64) -> (u64, BTreeSet<u64>, BTreeSet<u64>, Vec<serde_json::Value>) {
     sched::install_callback_inner();
     let distinct = Mutex::new(BTreeSet::new());
@@ -132,7 +156,8 @@ fn concurrent(v: &Verdicts, runs: usize, seed0: u64) -> (u64, BTreeSet<u64>, BTr
                     let dbs = node.dbs.clone();
                     let mut s0 = Session::new();
                     s0.call(&dbs, &format!("use-db {} tok", db));
-                    for j in 0..rng.range(0, 3) {
+                    let n_base = rng.range(0, 3);
+                    for j in 0..n_base {
                         s0.call(&dbs, &format!("set k base{}", j));
                     }
                     let mut watcher = Session::new();
@@ -267,6 +292,48 @@ fn concurrent(v: &Verdicts, runs: usize, seed0: u64) -> (u64, BTreeSet<u64>, BTr
                         let mut sm = samples.lock().unwrap();
                         if sm.len() < 2 && overlap && problem.is_none() {
                             sm.push(json!({"clients": plans, "replies": replies, "final": [fval, fver], "watcher_changed_version": notes, "reader_saw": seen_stored}));
+                        }
+                    }
+                    // a versioned write that was accepted but never stored (no notification carries its value) lost against
+                    // another change. That is in order only if the winner was issued later: the node stamps a change when it
+                    // creates it (again when it re-applies a stale one), always in the stretch of execution that ends at the
+                    // change's scheduling point before the database lock, so the order of those points in the trace is the
+                    // order of issue. Some applied write must have reached its last such point after the loser reached its
+                    // own - otherwise the most recently issued change was dropped in favour of an older one.
+                    if problem.is_none() {
+                        let mut last_site: BTreeMap<(usize, usize), usize> = BTreeMap::new();
+                        let mut current: BTreeMap<usize, usize> = BTreeMap::new();
+                        let mut line_of: BTreeMap<(usize, usize), String> = BTreeMap::new();
+                        for (pos, e) in out.events.iter().enumerate() {
+                            match e {
+                                Ev::Call(t, j, l) => {
+                                    current.insert(*t, *j);
+                                    line_of.insert((*t, *j), l.clone());
+                                }
+                                Ev::Ret(t, _, _) => {
+                                    current.remove(t);
+                                }
+                                Ev::Site(t, name) if name == "db.map:set_value" => {
+                                    if let Some(j) = current.get(t) {
+                                        last_site.insert((*t, *j), pos);
+                                    }
+                                }
+                                _ => {}
+                            }
+                        }
+                        CHECKED_DROPS.fetch_add(0, std::sync::atomic::Ordering::Relaxed);
+                        for ((t, j), l) in line_of.iter().filter(|((t, _), _)| *t < 2) {
+                            let val = l.rsplit(' ').next().unwrap().to_string();
+                            let applied = |x: &str| notes.iter().any(|n| n.1 == x);
+                            if applied(&val) || !l.starts_with("set-safe") {
+                                continue;
+                            }
+                            CHECKED_DROPS.fetch_add(1, std::sync::atomic::Ordering::Relaxed);
+                            let Some(mine) = last_site.get(&(*t, *j)) else { continue };
+                            let later_winner = line_of.iter().any(|((t2, j2), l2)| (*t2, *j2) != (*t, *j) && *t2 < 2 && applied(l2.rsplit(' ').next().unwrap()) && last_site.get(&(*t2, *j2)).map(|p| p > mine).unwrap_or(false));
+                            if !later_winner {
+                                problem = Some("accepted-write-dropped-in-favour-of-a-change-issued-earlier");
+                            }
                         }
                     }
                     if let Some(p) = problem {
@@ -597,6 +664,7 @@ pub fn run(tier: &str) -> i32 {
     ev.samples = c_samples;
     ev.set("sequential_version_classes", json!(seq_classes.iter().cloned().collect::<Vec<_>>()));
     ev.set("concurrent_distinct_schedules", json!(c_distinct.len()));
+    ev.set("concurrent_stale_writes_that_lost_judged_by_issue_order", json!(CHECKED_DROPS.load(std::sync::atomic::Ordering::Relaxed)));
     ev.set("replicated_runs", json!(r_runs));
     ev.set("restarts_of_a_database_whose_metadata_file_was_lost", json!(restored_cases));
     ev.set("replicated_inconclusive", json!(r_inconclusive));
